@@ -131,12 +131,11 @@ class TlcResult:
         return self.completed and not self.invariant and not self.postcondition_failed and not self.assumption_failed and not self.deadlock and not self.error
 
     def printed(self, tag):
-        """Lines printed by PrintT(<<"tag", ...>>) -> list of raw strings after the tag."""
+        """Values printed by PrintT(<<"tag", ...>>) -> list of raw strings after the tag
+        (TLC wraps long tuples over several lines)."""
         res = []
-        pre = '<<"%s", ' % tag
-        for line in self.out.splitlines():
-            if line.startswith(pre) and line.endswith(">>"):
-                res.append(line[len(pre):-2])
+        for m in re.finditer(r'<<\s*"%s",\s*(.*?)\s*>>\n' % re.escape(tag), self.out, re.S):
+            res.append(re.sub(r"\s*\n\s*", " ", m.group(1)))
         return res
 
     def coverage(self):
